@@ -71,3 +71,21 @@ Fixpoint range_loop {S R} (body : Z -> Z -> S -> res (step S R)) (i : Z) (x : by
 (* for cond(s) { s = body(s) } with explicit fuel; running out of fuel is reported as None and excluded by theorem *)
 Fixpoint while_loop {S} (fuel : nat) (cond : S -> bool) (body : S -> S) (s : S) : option S :=
   if cond s then match fuel with O => None | S f => while_loop f cond body (body s) end else Some s.
+
+(* for _, s := range LIST { body } over a list of byte strings or of (localName, xmlns) pairs *)
+Fixpoint list_loop {E S R} (body : E -> S -> res (step S R)) (l : list E) (s : S) : res (loop_out S R) :=
+  match l with
+  | [] => Val (Done s)
+  | x :: l' =>
+    r <- body x s ;;
+    match r with
+    | Next s' => list_loop body l' s'
+    | Break s' => Val (Done s')
+    | Return v => Val (Returned v)
+    end
+  end.
+
+(* for ; cond(s); { s = body(s) } where condition and body may index the input; fuel exhaustion is Panic *)
+Fixpoint while_res {S} (fuel : nat) (cond : S -> res bool) (body : S -> res S) (s : S) : res S :=
+  c <- cond s ;;
+  if c then match fuel with O => Panic | S f => s' <- body s ;; while_res f cond body s' end else Val s.
